@@ -103,6 +103,7 @@ def run(idx: ProgramIndex, rep: Report, tier: str):
     added_terms_masked(idx, rep, consumers)
     solution_containers(idx, rep, consumers)
     foreign_planters(idx, rep)
+    fill_is_per_element(idx, rep, consumers)
     overrides_consume_policy(idx, rep)
     rep.rule("C16-7", "the NaN entries that record which observations are missing survive every consumer: no in-place update of cached tensors, object-owned tensors or the caller's targets (storage/version domain)")
     from .common_alias import aliasing_obligations
@@ -145,6 +146,11 @@ def same_mask(fi: FuncInfo, rep: Report):
     mod = ast.Module(body=body, type_ignores=[])
     # the mask
     masks = [n for n in ast.walk(mod) if isinstance(n, ast.Assign) and isinstance(n.value, ast.Call) and (chain(n.value.func) or "").endswith("_get_observed") and isinstance(n.targets[0], ast.Name)]
+    if not masks:
+        # computed once in front of the policy branches and used in the mask branch
+        used = {x.id for x in ast.walk(mod) if isinstance(x, ast.Name)}
+        masks = [n for n in ast.walk(fi.node) if isinstance(n, ast.Assign) and isinstance(n.value, ast.Call) and (chain(n.value.func) or "").endswith("_get_observed")
+                 and isinstance(n.targets[0], ast.Name) and n.targets[0].id in used and n.lineno < body[0].lineno]
     probs = []
     if len(masks) != 1:
         rep.add("C16-2", inst, fi.where, False, "expected exactly one _get_observed mask in the mask branch, found %d" % len(masks), {})
@@ -567,3 +573,32 @@ def overrides_consume_policy(idx: ProgramIndex, rep: Report):
                     "consumes the policy or delegates to %s.%s" % (parent.cls.qualname if parent.cls else "?", name) if ok else
                     "%s.%s consumes settings.observation_nan_policy; this override computes from the raw targets without it and does not delegate: NaN out under 'mask', no error under 'fill'" % (parent.cls.qualname if parent.cls else "?", name), {})
     rep.floor("C16-12", "overrides of policy-consuming methods", n, 3)
+
+
+# ---- C16-13 --------------------------------------------------------------------------------------------------------
+def fill_is_per_element(idx: ProgramIndex, rep: Report, consumers):
+    """'mask' drops an input for the whole batch when its target is missing in ANY batch element (_get_observed reduces over the batch
+    dimensions, as documented); 'fill' keeps every element's own observations: its branch has to locate the missing targets per element
+    (torch.isnan of the labels).  A fill branch that uses the batch-reduced mask of the mask policy also drops valid observations of the
+    other batch elements."""
+    rep.rule("C16-13", "the 'fill' branch of a policy consumer locates missing targets per element (torch.isnan of the labels), never with the batch-reduced mask that _get_observed computes for the 'mask' policy")
+    n = 0
+    for fi in sorted(consumers, key=lambda f: (f.module.name, f.qualname)):
+        br, _, _ = policy_branches(fi)
+        body = br.get("fill")
+        if not body and "<else>" in br and {"ignore", "mask"} <= set(br):
+            body = br["<else>"]  # the remaining case of an if / elif chain that decided the other two
+        if not body:
+            continue
+        if all(isinstance(st, ast.Raise) for st in body):
+            continue
+        n += 1
+        reduced = {t.id for a in ast.walk(fi.node) if isinstance(a, ast.Assign) and isinstance(a.value, ast.Call) and (chain(a.value.func) or "").endswith("_get_observed") for t in a.targets if isinstance(t, ast.Name)}
+        mod = ast.Module(body=body, type_ignores=[])
+        uses = sorted({x.id for x in ast.walk(mod) if isinstance(x, ast.Name) and x.id in reduced} | ({"_get_observed(...)"} if any(isinstance(c, ast.Call) and (chain(c.func) or "").endswith("_get_observed") for c in ast.walk(mod)) else set()))
+        per_elem = any(isinstance(c, ast.Call) and (chain(c.func) or "") in ("torch.isnan",) or (isinstance(c, ast.Call) and isinstance(c.func, ast.Attribute) and c.func.attr == "isnan") or (isinstance(c, ast.Call) and (chain(c.func) or "").endswith("_fill_tensor")) for c in ast.walk(mod))
+        ok = not uses
+        rep.add("C16-13", "%s:%s[fill branch]" % (fi.module.name, fi.qualname), fi.where, ok,
+                "missing targets are located per element%s" % ("" if per_elem else " (no batch-reduced mask in the branch)") if ok else
+                "the 'fill' branch uses %s, the mask that _get_observed reduces over ALL batch dimensions: with NaN patterns that differ between batch elements each element also loses its valid observations at the positions that are missing elsewhere (posterior means 0.03-0.19 off, also for an element without any NaN)" % ", ".join(uses), {})
+    rep.floor("C16-13", "fill branches of policy consumers", n, 2)
